@@ -461,15 +461,34 @@ func judge(out *reg.Out, q *tn.Query, loc, rem []int, p Params, base, pr *runOut
 	knownResume := ""
 	var window map[int]bool
 	if knownBase == "" && p.Side == 0 && pr.pauses > 0 {
-		// the resumed request goes online again after the pause point: the k-th successful load
-		// blocks loaded when each pause took effect: counted from the paused run's own event log (for
-		// mech=step the header's k is a scheduler step, not a block index)
+		// the resumed request goes online again after k successful loads; k is counted from the paused
+		// run's own event log at the moment the request is sent again
 		var ks []int
 		pr.sim.Locked(func() {
-			for _, ps := range pr.pauseSeq {
+			first := true
+			for _, e := range pr.sim.Log {
+				// the moment a request is sent again after a resume: the executor may have consumed
+				// left-over queue items of the cancelled response after Unpause, so the skip count of
+				// the resumed request is the number of blocks loaded THEN, not at the pause
+				if e.Kind != tn.EvSend || e.Pkt == nil || e.Pkt.Dir != 0 {
+					continue
+				}
+				isNew := false
+				for _, q := range e.Pkt.Reqs {
+					if q.Type == graphsync.RequestTypeNew {
+						isNew = true
+					}
+				}
+				if !isNew {
+					continue
+				}
+				if first {
+					first = false
+					continue
+				}
 				n := 0
-				for _, e := range pr.sim.Log {
-					if e.Kind == tn.EvReqHook && e.Seq < ps {
+				for _, h := range pr.sim.Log {
+					if h.Kind == tn.EvReqHook && h.Seq < e.Seq {
 						n++
 					}
 				}
@@ -504,6 +523,9 @@ func judge(out *reg.Out, q *tn.Query, loc, rem []int, p Params, base, pr *runOut
 	}
 	if knownResume != "" {
 		out.Cov("c02class." + knownResume)
+		if os.Getenv("GS_TRACE") != "" {
+			out.Line("#trace window %v", window)
+		}
 	}
 	// ---- the uninterrupted run: a failure here is never a known finding of C06
 	if base.hang != "" {
